@@ -382,6 +382,8 @@ class SchemaBuilder(
             len(results) == 2
             and all("type" in res for res in results)
             and {"type": "null"} in results
+            # null would be rejected by const/enum
+            and not any("const" in res or "enum" in res for res in results)
         ):
             for result in results:
                 if result != {"type": "null"}:
